@@ -64,8 +64,12 @@ class InMemoryFederatedData(federated_data.FederatedData):
     self._preprocess_batch = preprocess_batch
     self._client_to_data_mapping = client_to_data_mapping
     self._client_ids = sorted(self._client_to_data_mapping.keys())
-    self._features = list(
-        self._client_to_data_mapping[self._client_ids[0]].keys())
+    if self._client_ids:
+      self._features = list(
+          self._client_to_data_mapping[self._client_ids[0]].keys())
+    else:
+      # An empty dataset (e.g. a slice to an empty range) has no features.
+      self._features = []
     for client_id in self._client_ids:
       dataset = self._client_to_data_mapping[client_id]
       if list(dataset.keys()) != self._features:
